@@ -12,14 +12,14 @@ import (
 
 type planarCase struct {
 	G         GSpec
-	Expect    int   // 1 planar by construction, 0 non-planar by construction, -1 unknown (oracle decides)
-	Perm      []int // relabelling
+	Expect    int     // 1 planar by construction, 0 non-planar by construction, -1 unknown (oracle decides)
+	Perm      []int   // relabelling
 	MorePerms [][]int // further relabellings (label-order dependent defects show only for a small fraction of labellings)
-	Subdivide []int // indices (into G.E) of edges to subdivide
-	DelEdge   int   // index of an edge to delete (subgraph closure), -1 none
-	DelVertex int   // vertex to delete, -1 none
-	Pendant   []int // vertices that get a pendant neighbour
-	Isolated  int   // isolated vertices to add
+	Subdivide []int   // indices (into G.E) of edges to subdivide
+	DelEdge   int     // index of an edge to delete (subgraph closure), -1 none
+	DelVertex int     // vertex to delete, -1 none
+	Pendant   []int   // vertices that get a pendant neighbour
+	Isolated  int     // isolated vertices to add
 }
 
 // genTriangulation builds a planar triangulation on n >= 3 vertices by face insertions and edge flips.
